@@ -383,17 +383,17 @@ Record idx_ok (s : istate) : Prop := {
   I_meta : forall d a, ohas d (by_denom s) = true -> In a (metal s d) -> oget a (alias s) = Some d
 }.
 
-Definition i_empty : istate := {| pairs := []; by_denom := []; by_erc := []; alias := []; meta := [] |}.
+Definition i_empty : istate := {| pairs := []; by_denom := []; by_erc := []; alias := []; meta := []; mstyle := [] |}.
 Lemma idx_ok_empty : idx_ok i_empty.
 Proof. constructor; cbn; intros; try discriminate. Qed.
 
 (* registering a fresh pair (denom, contract) together with its alias list *)
-Lemma idx_ok_register s base al c mo newmeta :
+Lemma idx_ok_register s base al c mo newmeta st :
   idx_ok s -> ohas base (by_denom s) = false -> ohas base (alias s) = false -> ohas c (by_erc s) = false ->
   forallb (alias_free s base) al = true ->
   (newmeta = oset base al (meta s) \/ (newmeta = meta s /\ oget base (meta s) = Some al)) ->
   idx_ok (add_pair {| pr_erc := c; pr_denom := base; pr_enabled := true; pr_module_owned := mo |}
-            {| pairs := pairs s; by_denom := by_denom s; by_erc := by_erc s; alias := set_aliases base al (alias s); meta := newmeta |}).
+            {| pairs := pairs s; by_denom := by_denom s; by_erc := by_erc s; alias := set_aliases base al (alias s); meta := newmeta; mstyle := st |}).
 Proof.
   intros [P1 P2 P3 P4 P5] Hb Hba Hc Hal Hm.
   apply ohas_false in Hb, Hba, Hc.
@@ -401,12 +401,12 @@ Proof.
   { intros a Ha. rewrite forallb_forall in Hal. specialize (Hal a Ha). unfold alias_free in Hal.
     apply andb_true_iff in Hal as [Hal H3]. apply andb_true_iff in Hal as [H1 H2].
     apply negb_true_iff in H1, H2, H3. apply Z.eqb_neq in H1. apply ohas_false in H2, H3. auto. }
-  assert (Hmetal : forall d, metal {| pairs := pairs s; by_denom := by_denom s; by_erc := by_erc s; alias := alias s; meta := newmeta |} d
+  assert (Hmetal : forall d, metal {| pairs := pairs s; by_denom := by_denom s; by_erc := by_erc s; alias := alias s; meta := newmeta; mstyle := st |} d
                              = if d =? base then al else metal s d).
   { intros d. unfold metal. cbn [meta]. destruct Hm as [->|[-> E]].
     - rewrite oget_oset. destruct (d =? base); reflexivity.
     - destruct (Z.eqb_spec d base); [subst; rewrite E|]; reflexivity. }
-  unfold add_pair. cbn [pr_erc pr_denom pairs by_denom by_erc alias meta].
+  unfold add_pair. cbn [pr_erc pr_denom pairs by_denom by_erc alias meta mstyle].
   constructor; cbn [pairs by_denom by_erc alias meta pget].
   - intros id p. destruct (pid_eqb id (c, base)) eqn:E.
     + apply pid_eqb_eq in E. subst. intros [= <-]. cbn [pr_erc pr_denom]. rewrite !oget_oset, !Z.eqb_refl. auto.
@@ -424,10 +424,10 @@ Proof.
       destruct (pid_eqb id (c, base)) eqn:E; [|assumption]. apply pid_eqb_eq in E. subst.
       destruct (P1 _ _ Hp) as [E1 _]. injection E1 as E1 E2. congruence.
   - intros a d. rewrite set_aliases_spec. unfold ohas. rewrite !oget_oset.
-    fold (metal {| pairs := pairs s; by_denom := by_denom s; by_erc := by_erc s; alias := alias s; meta := newmeta |} d).
+    fold (metal {| pairs := pairs s; by_denom := by_denom s; by_erc := by_erc s; alias := alias s; meta := newmeta; mstyle := st |} d).
     unfold metal at 1. cbn [meta]. 
     change (match oget d newmeta with Some l => l | None => [] end)
-      with (metal {| pairs := pairs s; by_denom := by_denom s; by_erc := by_erc s; alias := alias s; meta := newmeta |} d).
+      with (metal {| pairs := pairs s; by_denom := by_denom s; by_erc := by_erc s; alias := alias s; meta := newmeta; mstyle := st |} d).
     rewrite Hmetal.
     destruct (inZ a al) eqn:Ea.
     + intros [= <-]. rewrite Z.eqb_refl. apply inZ_In in Ea. destruct (Hfree a Ea) as [F1 [F2 F3]].
@@ -438,8 +438,8 @@ Proof.
   - intros d a. unfold ohas. rewrite oget_oset, set_aliases_spec.
     change (metal {| pairs := (c, base, Some {| pr_erc := c; pr_denom := base; pr_enabled := true; pr_module_owned := mo |}) :: pairs s;
                      by_denom := oset base (c, base) (by_denom s); by_erc := oset c (c, base) (by_erc s);
-                     alias := set_aliases base al (alias s); meta := newmeta |} d)
-      with (metal {| pairs := pairs s; by_denom := by_denom s; by_erc := by_erc s; alias := alias s; meta := newmeta |} d).
+                     alias := set_aliases base al (alias s); meta := newmeta; mstyle := st |} d)
+      with (metal {| pairs := pairs s; by_denom := by_denom s; by_erc := by_erc s; alias := alias s; meta := newmeta; mstyle := st |} d).
     rewrite Hmetal. destruct (Z.eqb_spec d base).
     + subst. intros _ Ha. rewrite (proj2 (inZ_In a al) Ha). reflexivity.
     + intros Hd Ha. assert (Hd' : ohas d (by_denom s) = true) by (unfold ohas; destruct (oget d (by_denom s)); [reflexivity|discriminate]).
@@ -456,6 +456,7 @@ Proof.
     destruct (ohas contract (by_erc s)) eqn:E4; [discriminate|]. cbn [orb negb] in H.
     destruct (oget base (meta s)) as [old|] eqn:Em.
     + destruct (eq_aliases old aliases) eqn:Ee; [|discriminate]. apply eq_aliases_eq in Ee. subst old.
+      cbn [andb] in H. destruct (match oget base (mstyle s) with Some 1 => true | _ => false end); [|discriminate].
       injection H as <-. apply idx_ok_register; auto.
     + injection H as <-. apply idx_ok_register; auto.
   - (* RegisterERC20 *)
@@ -506,7 +507,7 @@ Proof.
         -- intros Hin. pose proof (P5 d a' Hd Hin) as Q. destruct (Z.eqb_spec a' a); [subst; congruence|assumption].
   - (* Remove *)
     destruct (oget denom (by_denom s)) as [id|] eqn:Ed; [|discriminate].
-    destruct (pget id (pairs s)) as [p|] eqn:Ep; [|discriminate]. injection H as <-.
+    destruct (pget id (pairs s)) as [p|] eqn:Ep; [|discriminate]. destruct (negb (pr_enabled p)); [discriminate|]. injection H as <-.
     destruct Hok as [P1 P2 P3 P4 P5].
     destruct (P1 id p Ep) as [Eid [Ebd Ebe]].
     assert (Hdel : forall a', oget a' (match oget (pr_denom p) (meta s) with Some (a0 :: al) => del_aliases (a0 :: al) (alias s) | _ => alias s end)
